@@ -48,7 +48,7 @@ fn nows(s: &str) -> String { s.chars().filter(|c| !c.is_whitespace()).collect() 
 
 const IDENTS: &[&str] = &["a", "b", "foo", "client", "let", "if", "else", "return", "match", "self", "Ok", "x1", "fmt", "Some", "None", "mut"];
 const PUNCTS: &[char] = &['+', '-', '*', '/', '=', '<', '>', '!', '&', '|', '.', ',', ';', ':', '?', '@', '%', '^'];
-const LITS: &[&str] = &["\"str\"", "\"a{b}\"", "\"{}\"", "\"with ; semi\"", "1", "1.5", "'c'", "\"x y\"", "\"}} {{\"", "0x1f", "\"\"", "b'x'", "\"{0}\""];
+const LITS: &[&str] = &["\"str\"", "\"a{b}\"", "\"{}\"", "\"with ; semi\"", "1", "1.5", "'c'", "\"x y\"", "\"}} {{\"", "0x1f", "\"\"", "b'x'", "\"{0}\"", "r\"{}: {}\"", "r#\"{a} \"q\" {}\"#", "b\"{0}\"", "'{'", "'}'", "b'{'"];
 const VARS: &[(&str, &str)] = &[("v0", "alpha"), ("v1", "Beta Gamma"), ("v2", "d{e}lta"), ("v3", "9")];
 
 fn gen_body(rng: &mut Rng, depth: usize, len: usize) -> Vec<TT> {
